@@ -121,6 +121,28 @@ pub struct StartObs {
 }
 
 pub fn observe_start(w: &Written, src: Source, n: usize, hport: Option<u16>, fault: bool) -> Result<StartObs, String> {
+    // an external process grabbing one of our ports between the free-port test and the bind is a
+    // machinery matter: move to fresh ports and start again
+    let mut w = w.clone();
+    let mut hport = hport;
+    for _ in 0..3 {
+        let o = observe_start_once(&w, src, n, hport, fault)?;
+        let ports: Vec<u16> = w.get("port").and_then(|p| p.parse().ok()).into_iter().chain(hport).collect();
+        if o.exited.is_some() && crate::proc::external_port_collision(&o.stderr_full, &ports) {
+            w.set("port", &free_port().to_string());
+            if hport.is_some() {
+                let h = free_port();
+                w.set("health_check_port", &h.to_string());
+                hport = Some(h);
+            }
+            continue;
+        }
+        return Ok(o);
+    }
+    observe_start_once(&w, src, n, hport, fault)
+}
+
+fn observe_start_once(w: &Written, src: Source, n: usize, hport: Option<u16>, fault: bool) -> Result<StartObs, String> {
     let mut sp = ServerProc::start(w, src, &[])?;
     let blocks = sp.wait_started(n, Duration::from_secs(20));
     // settle: a dying worker takes a moment to unwind
